@@ -310,7 +310,8 @@ def hostile_lines(tier):
 
 
 def solo_healthy():
-    rig = Rig(tree={"d": {"f": b"0123456789"}, "g": b"x", "e": {}, "o": b"OTHER"}, server_kwargs={"block_size": 4})
+    rig = Rig(tree={"d": {"f": b"0123456789"}, "g": b"x", "e": {}, "o": b"OTHER"}, users=_users,
+              server_kwargs={"block_size": 4, "maximum_connections": SERVER_LIMIT})
     try:
         rig.ev(0, "@connect")
         rig.ev(0, "USER anonymous")
@@ -322,18 +323,28 @@ def solo_healthy():
         rig.close()
 
 
+def _users(a, base):
+    return [a.User("alice", "pw", base_path=base, maximum_connections=1), a.User(base_path=base)]
+
+
+STATES = {"anon": ["USER anonymous"], "fresh": [], "pending": ["USER alice"], "alice": ["USER alice", "PASS pw"]}
+SERVER_LIMIT = 3
+
+
 def server_work(item):
-    lines, solo = item
+    lines, solo, state = item
     part = report.Partial()
     for line in lines:
-        rig = Rig(n_sessions=2, tree={"d": {"f": b"0123456789"}, "g": b"x", "e": {}, "o": b"OTHER"},
-                  server_kwargs={"block_size": 4})
+        rig = Rig(n_sessions=2, tree={"d": {"f": b"0123456789"}, "g": b"x", "e": {}, "o": b"OTHER"}, users=_users,
+                  server_kwargs={"block_size": 4, "maximum_connections": SERVER_LIMIT})
         problems = []
         try:
             w = rig.world
-            for i in range(2):
-                rig.ev(i, "@connect")
-                rig.ev(i, "USER anonymous")
+            rig.ev(0, "@connect")
+            rig.ev(0, "USER anonymous")
+            rig.ev(1, "@connect")
+            for e in STATES[state]:
+                rig.ev(1, e)
             hostile, healthy = rig.sessions[1], rig.sessions[0]
             rig.ev(0, HEALTHY[0])
             rig.ev(0, HEALTHY[1])
@@ -357,14 +368,27 @@ def server_work(item):
             if not problems and (tr != solo[0] or healthy.data is None or healthy.data.received != solo[1]):
                 problems.append({"kind": "healthy-session-disturbed", "got": tr, "solo": solo[0]})
             if not problems:
-                # a fresh session can still log in
-                s = Session(w, name="fresh")
-                s.connect()
-                r = s.login()
-                if not r or r[-1][0] != "230":
-                    problems.append({"kind": "fresh-login-failed", "codes": [c for c, _ in (r or [])]})
-                s.peer.vanish()
+                # the hostile session's resources are released: its per-user and server-wide slots are free again
                 healthy.peer.vanish()
+                w.settle(0)
+                probes = []
+                for k in range(SERVER_LIMIT + 1):
+                    s = Session(w, name=f"fresh{k}")
+                    probes.append(s)
+                    r = s.connect()
+                    code = r[-1][0] if r else None
+                    if code != ("220" if k < SERVER_LIMIT else "421"):
+                        problems.append({"kind": "server-slot-not-released", "k": k, "code": code})
+                        break
+                if not problems:
+                    r = probes[0].cmd("USER alice")
+                    if not r or r[-1][0] != "331":
+                        problems.append({"kind": "user-slot-not-released", "codes": [c for c, _ in (r or [])]})
+                    r = probes[1].login()
+                    if not r or r[-1][0] != "230":
+                        problems.append({"kind": "fresh-login-failed", "codes": [c for c, _ in (r or [])]})
+                for s in probes:
+                    s.peer.vanish()
                 w.settle(0)
                 for p in ledger.released_problems(w, rig.server):
                     problems.append(p)
@@ -373,16 +397,17 @@ def server_work(item):
             part.evaluations += 1
             part.traces += 1
             part.transitions += w.net.n_events
-            k = report.fp(repr(line)[:200] + str(len(line)))
+            k = report.fp(repr(line)[:200] + str(len(line)) + state)
             part.states.add(k)
             part.nontrivial.add(k)
             for p in problems[:1]:
                 shape = "eof-prefix" if isinstance(line, tuple) else ("long" if len(line) > 1000 else "line")
-                part.violation({"kind": p["kind"], "shape": shape}, {"problem": p, "line": repr(line)[:120], "len": len(line)},
-                               replay={"server": [shape, (line[1] if isinstance(line, tuple) else line).decode("latin-1")]})
+                part.violation({"kind": p["kind"], "shape": shape, "state": state},
+                               {"problem": p, "line": repr(line)[:120], "len": len(line)},
+                               replay={"server": [shape, state, (line[1] if isinstance(line, tuple) else line).decode("latin-1")]})
         finally:
             rig.close()
-    part.sample({"hostile_lines": [repr(l)[:60] for l in lines[:3]]}, limit=1)
+    part.sample({"hostile_lines": [repr(l)[:60] for l in lines[:3]], "login_state": state}, limit=1)
     return part
 
 
@@ -395,14 +420,21 @@ def run(tier, seed, t0):
     citems, ncases = client_items(tier)
     solo = solo_healthy()
     hl = hostile_lines(tier)
-    sitems = [(hl[i:i + 30], solo) for i in range(0, len(hl), 30)]
+    sitems = [(hl[i:i + 30], solo, "anon") for i in range(0, len(hl), 30)]
+    # the structural part of the hostile alphabet from every other login state (no user yet, USER sent and password
+    # pending, logged in as a user with a connection limit)
+    core = [l for l in hl if isinstance(l, tuple) and l[1][:4] in (b"", b"P", b"PA", b"PAS", b"PASS", b"USER", b"CWD ")]
+    core += [l for l in hl if not isinstance(l, tuple) and (len(l) <= 4 or len(l) > 1000 or l[:1] in (b"\xc3", b"\xe2", b"\xff"))]
+    core += [b"PASS \xff\xfe\r\n", b"PASS " + b"x" * (2 ** 16 + 5) + b"\r\n", ("eof", b"PASS p"), b"PASS wrong\r\n"]
+    for state in ("fresh", "pending", "alice"):
+        sitems += [(core[i:i + 30], solo, state) for i in range(0, len(core), 30)]
     parts = report.pmap(parser_work, parser_items) + report.pmap(client_work, citems) + report.pmap(server_work, sitems)
     part = report.merge_all(parts)
     bounds = {"parser_seeds": {"unix": len(UNIX), "windows": len(WINDOWS), "mlsx": len(MLSX), "pasv": len(PASV), "epsv": len(EPSV),
                                "257": len(D257)}, "mutation_alphabet": len(GAMMA),
               "operators": ["delete 1..6", "insert", "replace", "truncate head/tail", "swap tokens", "duplicate token"],
               "pairs": "window %d" % (12 if tier == "quick" else 40), "client_e2e_cases": ncases,
-              "hostile_lines": len(hl), "line_lengths": "2^16-2 .. 2^16+2, 2^17 (with and without line end)"}
+              "hostile_lines": len(hl), "hostile_login_states": list(STATES), "limits": "server 3, user alice 1", "line_lengths": "2^16-2 .. 2^16+2, 2^17 (with and without line end)"}
     return report.finish(
         PID, tier, seed, "model_checking", part, t0,
         rule="parsers: every single mutation (and windowed pairs) of every seed; client: one real-client session per mutated "
